@@ -83,6 +83,9 @@ func (h *HugeSpec) bytes(mode string) []byte {
 		}
 		out = bo.AppendUint64(out, math.Float64bits(v))
 	}
+	if h.Trailing >= len(out) {
+		return out[:1]
+	}
 	return out[:len(out)-h.Trailing]
 }
 
@@ -206,6 +209,37 @@ func genCase(t *rapid.T) Case {
 	class := rapid.SampledFrom([]string{"forgery", "forgery", "mutant", "mutant", "mutant", "valid", "splice", "atlimit"}).Draw(t, "class")
 	if rapid.IntRange(0, 29).Draw(t, "many") == 17 {
 		class = "many"
+	}
+	if rapid.IntRange(0, 39).Draw(t, "tower") == 17 {
+		// collection headers nested d deep, every one claiming as many members as its
+		// limit allows (or one fewer, or one), the input ending after the innermost
+		// header: no count is above its limit, and what the counts announce is d times
+		// the limit - the bound allows the limit once
+		lim := rapid.SampledFrom([]int{3, 64, 4096, 65536}).Draw(t, "tlimit")
+		d := rapid.SampledFrom([]int{2, 10, 40, 100, 256, 300}).Draw(t, "tdepth")
+		var bo binary.AppendByteOrder = binary.LittleEndian
+		mark := byte(1)
+		if rapid.Bool().Draw(t, "txdr") {
+			bo, mark = binary.BigEndian, 0
+		}
+		var data []byte
+		for i := 0; i < d; i++ {
+			typ := uint32(7)
+			if mode == "ewkb" {
+				typ |= rapid.SampledFrom([]uint32{0, 0, 0x80000000, 0xC0000000}).Draw(t, "tflags")
+			}
+			n := rapid.SampledFrom([]int{lim, lim, lim, lim - 1, 1}).Draw(t, "tcount")
+			data = append(data, mark)
+			data = bo.AppendUint32(data, typ)
+			data = bo.AppendUint32(data, uint32(n))
+		}
+		if rapid.Bool().Draw(t, "tleaf") {
+			data = append(data, mark)
+			data = bo.AppendUint32(data, 1)
+			data = bo.AppendUint64(data, math.Float64bits(1.5))
+			data = bo.AppendUint64(data, math.Float64bits(-2.5))
+		}
+		return Case{Class: "tower", Mode: mode, Limits: [3]int{lim, lim, lim}, Data: data}
 	}
 	if rapid.IntRange(0, 399).Draw(t, "huge") == 257 {
 		stride := rapid.IntRange(2, 4).Draw(t, "hstride")
